@@ -13,10 +13,12 @@ import time
 
 VERIF = os.path.dirname(os.path.dirname(os.path.abspath(__file__)))
 SPEC = os.path.join(VERIF, "spec")
-RUN = os.path.join(VERIF, "run")
+# scratch directory (VERIF_RUN_DIR lets a second run work next to a first one; the GEN cache is shared)
+RUN = os.environ.get("VERIF_RUN_DIR") or os.path.join(VERIF, "run")
 HARNESS = os.path.join(VERIF, "harness")
 TARGET = os.path.join(HARNESS, "target", "debug")
-EVIDENCE = os.path.join(VERIF, "evidence")
+# (a run in a private VERIF_RUN_DIR keeps its evidence there and leaves the registered location to the registered commands)
+EVIDENCE = os.path.join(os.environ["VERIF_RUN_DIR"], "evidence") if os.environ.get("VERIF_RUN_DIR") else os.path.join(VERIF, "evidence")
 JAVA_CP = "/opt/veriftools/tla/tla2tools.jar:/opt/veriftools/tla/CommunityModules-deps.jar"
 NCPU = os.cpu_count() or 4
 
@@ -157,7 +159,7 @@ def gen_scenarios(prop, module, cfg, deps, consts=None, workers=4, timeout=1800,
         for k, v in consts.items():
             cfg_text = re.sub(r"(?m)^(\s*%s\s*=).*$" % re.escape(k), r"\1 %s" % v, cfg_text)
     key = spec_hash(deps + [module + ".tla"]) + hashlib.sha256((cfg_text + str(simulate)).encode()).hexdigest()[:12]
-    cdir = os.path.join(RUN, "cache")
+    cdir = os.path.join(VERIF, "run", "cache")
     os.makedirs(cdir, exist_ok=True)
     cpath = os.path.join(cdir, "%s_%s.json" % (module, key))
     if os.path.exists(cpath):
